@@ -9,23 +9,21 @@
     rule only, never on the data: recursion depth of evaluation is bounded by the rule's depth. *)
 From Coq Require Import List.
 From JL Require Import Base.Json Base.F64 Base.Dec2Flt Base.Monad Model.JsOp Model.Eval Spec.Specs.
-From JL Require Import Proofs.MonadLaws Proofs.Totality Proofs.Scan Props.C04.
+From JL Require Import Proofs.MonadLaws Proofs.Totality Proofs.Scan Proofs.Scan2.
 From Coq Require Import String NArith ZArith.
 Local Open Scope string_scope.
 Import ListNotations.
 
-Theorem C01_no_panic_no_hang_partial :
-  scanner_lemmas ->
+Theorem C01_no_panic_no_hang :
   forall n r d, vdepth r < n ->
     (exists v, snd (apply_fuel n r d) = Ok v) \/ (exists e, snd (apply_fuel n r d) = Err e).
-Proof. intros H2. exact (no_panic_no_hang str_to_number_spec H2). Qed.
-Print Assumptions C01_no_panic_no_hang_partial.
+Proof. exact (no_panic_no_hang str_to_number_spec parse_float_string_spec). Qed.
+Print Assumptions C01_no_panic_no_hang.
 
-Theorem C01_apply_total_partial :
-  scanner_lemmas ->
+Theorem C01_apply_total :
   forall r d, (exists v, snd (apply r d) = Ok v) \/ (exists e, snd (apply r d) = Err e).
-Proof. intros H2. exact (apply_total str_to_number_spec H2). Qed.
-Print Assumptions C01_apply_total_partial.
+Proof. exact (apply_total str_to_number_spec parse_float_string_spec). Qed.
+Print Assumptions C01_apply_total.
 
 (** the public helpers that return a Result return Ok or Err; the others are total functions *)
 Theorem C01_helpers_total :
